@@ -6,6 +6,7 @@ import (
 	"log"
 	"net"
 	"net/http"
+	"sync"
 	"time"
 
 	"github.com/buildbuildio/pebbles/planner"
@@ -33,6 +34,24 @@ func (sd subscriptionDict) CleanAll() {
 	}
 }
 
+// frameConn serializes the frames written to one websocket connection: a frame is written
+// with two Write calls, and the handler, the heartbeat and every subscription listener
+// write to the same connection from their own goroutines
+type frameConn struct {
+	net.Conn
+	mu sync.Mutex
+}
+
+// writeServerText writes one text frame; frames written to a frameConn never interleave
+func writeServerText(conn net.Conn, msg []byte) error {
+	if fc, ok := conn.(*frameConn); ok {
+		fc.mu.Lock()
+		defer fc.mu.Unlock()
+		return wsutil.WriteServerText(fc.Conn, msg)
+	}
+	return wsutil.WriteServerText(conn, msg)
+}
+
 func sendHeartbeat(ctx context.Context, conn net.Conn) error {
 	timeTicker := time.NewTicker(time.Second * 4)
 	defer timeTicker.Stop()
@@ -45,7 +64,7 @@ func sendHeartbeat(ctx context.Context, conn net.Conn) error {
 		select {
 		case <-timeTicker.C:
 			verifhook.At("sub.heartbeat.beforeWrite")
-			if err := wsutil.WriteServerText(conn, bMsg); err != nil {
+			if err := writeServerText(conn, bMsg); err != nil {
 				return err
 			}
 		case <-ctx.Done():
@@ -64,10 +83,12 @@ func (g *Gateway) subscriptionHandler(w http.ResponseWriter, r *http.Request) {
 		},
 	}
 
-	conn, _, _, err := upgrader.Upgrade(r, w)
+	rawConn, _, _, err := upgrader.Upgrade(r, w)
 	if err != nil {
 		return
 	}
+
+	conn := &frameConn{Conn: rawConn}
 
 	subDict := make(subscriptionDict)
 
@@ -82,6 +103,8 @@ func (g *Gateway) subscriptionHandler(w http.ResponseWriter, r *http.Request) {
 		defer conn.Close()
 
 		// gracefully close connection
+		conn.mu.Lock()
+		defer conn.mu.Unlock()
 		body := ws.NewCloseFrameBody(ws.StatusNormalClosure, "")
 		frame := ws.NewCloseFrame(body)
 		if err := ws.WriteHeader(conn, frame.Header); err != nil {
@@ -113,7 +136,7 @@ func (g *Gateway) subscriptionHandler(w http.ResponseWriter, r *http.Request) {
 			if err != nil {
 				return
 			}
-			if err := wsutil.WriteServerText(conn, bresp); err != nil {
+			if err := writeServerText(conn, bresp); err != nil {
 				return
 			}
 			// start sending heartbeat
